@@ -351,6 +351,8 @@ def b7(F, rep):
     most 2^16), so 2^16 or more operations are needed before the check can fire.  Summing *values* (up to 2^31 each) overflows
     after three of them."""
     from ..ub import UB, INF
+    if not F.j.get("overflow_checks"):
+        return          # the rule reads the compiler's overflow checks; release-shape MIR has none (nothing can abort there)
     U = UB(F)
     n = 0
     for name, b in sorted(F.bodies.items()):
